@@ -428,8 +428,13 @@ def _audit(ctx, ns, rng, T, E, det, ops, where="final"):
             resE[name], resF[name] = (s1, r1), (s2, r2)
             if s2 != "ok":
                 ctx.count("fresh_raises", "%s:%s" % (name, type(r2).__name__))
-                # the freshly built system fails too (e.g. overloaded): only demand the same failure
-                ctx.check("history.reports_succeed", s1 != "ok" and type(r1) is type(r2),
+                # the freshly built system fails too (e.g. overloaded): only demand the same failure. A system without
+                # a steady state fails either through a component's polarity guard (ValueError 'Unstable system') or by
+                # running out of iterations (RuntimeError) - which one trips first depends on the sweep trajectory, i.e.
+                # on node order, not on the structure: the two solver failures count as the same failure
+                solver_fail = lambda e_: (isinstance(e_, ValueError) and "Unstable system" in str(e_)) or (
+                    isinstance(e_, RuntimeError) and "Steady-state not achieved" in str(e_))
+                ctx.check("history.reports_succeed", s1 != "ok" and (type(r1) is type(r2) or (solver_fail(r1) and solver_fail(r2))),
                           dict(det, report=name, edited="ok" if s1 == "ok" else H.exc_sig(r1), fresh=H.exc_sig(r2)))
                 continue
             ctx.check("history.reports_succeed", s1 == "ok",
